@@ -246,7 +246,7 @@ func (c *Ctx) ruleVrfExport() {
 			continue
 		}
 		got := map[string]bool{}
-		for _, f := range append([]*ssa.Function{fn}, fn.AnonFuncs...) {
+		for _, f := range c.withPrivateHelpers(fn, 1) { // the function, its closures and helpers extracted from it
 			for k := range c.familyCases(f) {
 				if strings.HasSuffix(k, "_VPN") {
 					got[k] = true
@@ -659,7 +659,60 @@ func (c *Ctx) ruleRTCFilter() {
 	has := staticCallsOf(ii, false, "HasRouteTarget")
 	ext := staticCallsOf(ii, false, "GetExtCommunities")
 	okI := len(def) > 0 && len(has) > 0 && len(ext) > 0 && inLoop(has[0].Block())
-	if okI {
+	// the same any-scan written with the library: slices.ContainsFunc(path.GetExtCommunities(), h.HasRouteTarget)
+	var anyScan *ssa.Call
+	for _, b := range ii.Blocks {
+		for _, in := range b.Instrs {
+			call, ok := in.(*ssa.Call)
+			if !ok || len(call.Call.Args) != 2 {
+				continue
+			}
+			cal := call.Call.StaticCallee()
+			if cal == nil || !strings.HasPrefix(cal.String(), "slices.ContainsFunc") {
+				continue
+			}
+			pred := funcValue(call.Call.Args[1])
+			fromExt := false
+			for _, e := range ext {
+				if stripConv(call.Call.Args[0]) == ssa.Value(e) {
+					fromExt = true
+				}
+			}
+			if pred != nil && pred.Name() == "HasRouteTarget" && fromExt {
+				anyScan = call
+			}
+		}
+	}
+	if !okI && anyScan != nil && len(def) > 0 {
+		okI = true
+		for _, b := range ii.Blocks {
+			ret, ok := b.Instrs[len(b.Instrs)-1].(*ssa.Return)
+			if !ok {
+				continue
+			}
+			if ret.Results[0] == ssa.Value(anyScan) {
+				continue
+			}
+			k, ok := ret.Results[0].(*ssa.Const)
+			if !ok {
+				okI = false
+				continue
+			}
+			if k.Value.String() == "true" {
+				j := false
+				for _, t := range def {
+					for _, ref := range *t.Referrers() {
+						if i, ok := ref.(*ssa.If); ok && edgeDominates(i.Block(), 0, b) {
+							j = true
+						}
+					}
+				}
+				if !j {
+					okI = false
+				}
+			}
+		}
+	} else if okI {
 		// true results only on a true edge of one of the two tests; the final return is false
 		for _, b := range ii.Blocks {
 			ret, ok := b.Instrs[len(b.Instrs)-1].(*ssa.Return)
